@@ -8,7 +8,7 @@ import numpy as np
 import common
 import gen
 from common import Case, Issue, q, ql, il, line
-from thr_common import cells, is_pow2
+from thr_common import cells, is_pow2, U53, FLBOUND_SLACK, fl_in_range, fl_bucket
 
 ID = "C15"
 LEVEL = "proof"
@@ -35,7 +35,10 @@ TRUSTED_BASE = ["Lean 4.33 kernel", "axioms propext/Classical.choice/Quot.sound 
                 "harness and driver parsing; tolerance 1e-9 on interpolated thresholds, 2^-50 on quotients"]
 ASSUMPTIONS = ["finite float scores and thresholds of moderate magnitude", "both classes non-empty",
                "1-d array (or list) arguments; nb_points a non-negative int or None",
-               "float rounding of interpolated thresholds and of linspace is outside the proof"]
+               "float rounding of the interpolated support thresholds (targets supplied by the caller, or np.linspace(0, 1, k) = "
+               "fl(i * fl(1/(k-1))), themselves rounded): within FLBOUND_SLACK x the bound of SA.thresholdAt_fl_error / "
+               "SA.thresholdAtE_fl_error(_lip) / SA.C15_linspace_fl_error for interior targets (standard model |fl x - x| <= u|x|, "
+               "u = 2^-53; scores and targets in [2^-200, 2^200]); within 1e-9 as sorted multisets everywhere"]
 
 AXES = ["fnr", "fpr", "tnr", "tpr", "far", "frr", "tar", "trr"]
 BAD_AXES = ["fnrr", "FPR", "x", "acc", "topr"]
@@ -299,8 +302,45 @@ def build(inp) -> Case:
     ln = line("roc", obs=1, **base, othr=ql(othr), ofnr=ql(ofnr), ofpr=ql(ofpr), ocm=il(ocm), ox=ql(ox),
               otpr=ql(views["tpr"]), otnr=ql(views["tnr"]), req=ql(req), epsr=q(Fraction(1, 2**50)),
               epst=q(Fraction(0) if ex else Fraction(1, 10**9) * Fraction(scale + 1)))
+    # --- float-bound lines: the interpolated support thresholds against the exact model's, target by target (no sorting
+    # involved: the implementation's own threshold_at_fnr / threshold_at_fpr on the targets roc() uses, the same code path).
+    # Supplied targets are exact doubles (op `flbound`); the default path uses np.linspace(0, 1, k), whose entries
+    # fl(i * fl(1/(k-1))) are themselves rounded (op `flboundlin`: the target is an expression with its own error bound).
+    sbase = dict(pos=ql(pos), neg=ql(neg), ep=inp["ep"], en=inp["en"], sc=inp["sc"], ec=inp["ec"], sorted=0)
+    fl_lines, fl_items = [], []
+    paired = True
+    if nsup > 0:
+        for key, fn_ in (("fnr", s.threshold_at_fnr), ("fpr", s.threshold_at_fpr)):
+            if inp[key]:
+                r_ = common.call(fn_, np.array(inp[key], dtype=float))
+                if r_[0] == "ok":
+                    fl_items.append((key, list(inp[key]), _flat(r_[1])))
+                    fl_lines.append(line("flbound", **sbase, metric=key, rs=ql(inp[key]), u=q(U53)))
+    elif nb is not None:
+        mine = []
+        for key, fn_, k_ in (("fnr", s.threshold_at_fnr, nb // 2), ("fpr", s.threshold_at_fpr, nb - nb // 2)):
+            tg = np.linspace(0.0, 1.0, k_, endpoint=True)
+            # the float model of linspace (lean/SA/Model/FloatRoc.lean: linspaceE): fl(i * fl(1/(k-1))), last entry 1.0
+            want_tg = [0.0] if k_ == 1 else [1.0 if i == k_ - 1 else i * (1.0 / (k_ - 1)) for i in range(k_)]
+            if [float(x) for x in tg] != want_tg:
+                paired = False
+                tags.append("float-bound linspace-differs")
+                continue
+            r_ = common.call(fn_, tg)
+            if r_[0] == "ok":
+                mine += _flat(r_[1])
+                if k_ > 0:
+                    fl_items.append((key, [float(x) for x in tg], _flat(r_[1])))
+                    fl_lines.append(line("flboundlin", **sbase, metric=key, k=k_, u=q(U53)))
+        # the thresholds judged here are the ones roc() returned (same multiset, bit for bit)
+        if paired and sorted(mine) != sorted(othr):
+            paired = False
+            tags.append("float-bound unpaired")
+    if not paired:
+        fl_lines, fl_items = [], []
+    fl_ok_inputs = fl_in_range(pos) and fl_in_range(neg)
     inp["_evals"] = max(len(othr), 1)
-    case = Case(ID, inp, [ln], None, tuple(tags), 0, pre)
+    case = Case(ID, inp, [ln] + fl_lines, None, tuple(tags), 0, pre)
 
     def judge(outs):
         o = outs[0]
@@ -328,6 +368,33 @@ def build(inp) -> Case:
                    if not common.close(x, y, rel=Fraction(1, 10**9), abs_=Fraction(1, 10**9), scale=scale)]
             if bad:
                 iss.append(Issue("DISAGREE", "thresholds", f"{desc}: sorted thresholds differ from the model's at {bad[:3]}", sig + "/thr"))
+        # --- float-bound: |impl - model| per target against the bound of SA.thresholdAt_fl_error (supplied targets) /
+        # SA.thresholdAtE_fl_error, SA.C15_linspace_fl_error (linspace targets); same neighbours -> eps, else Lipschitz
+        worst, nchk = None, 0
+        for (key, tgs, got), o2 in zip(fl_items, outs[1:]):
+            if "err" in o2 or not fl_ok_inputs:
+                continue
+            f_ok, f_int, f_same = common.plist(o2["ok"]), common.plist(o2["interior"]), common.plist(o2["same"])
+            f_eps, f_lip, f_t = common.pfracs(o2["eps"]), common.pfracs(o2["epslip"]), common.pfracs(o2["t"])
+            if not (len(got) == len(tgs) == len(f_ok)):
+                continue
+            for k, r in enumerate(tgs):
+                a_ = common.fr(got[k])
+                if f_ok[k] != "1" or f_int[k] != "1" or a_ is None or isinstance(a_, float) or not fl_in_range([r]):
+                    continue  # a special case applies (or may apply within rounding): sentinel values, compared above
+                bound = f_eps[k] if f_same[k] == "1" else f_lip[k]
+                d = abs(a_ - f_t[k])
+                ratio = d / bound if bound > 0 else (Fraction(0) if d == 0 else Fraction(10**6))
+                worst = ratio if worst is None or ratio > worst else worst
+                nchk += 1
+                if d > FLBOUND_SLACK * bound:
+                    iss.append(Issue("DISAGREE", "float-bound", f"{desc}: support threshold threshold_at_{key}({r}) impl={got[k]} "
+                                     f"model={float(f_t[k])} differ by {float(d):.3e} > {FLBOUND_SLACK} x {float(bound):.3e} "
+                                     f"(theorem bound, {'same neighbours' if f_same[k] == '1' else 'Lipschitz'}"
+                                     f"{', linspace target' if nsup == 0 else ''}; ratio {float(ratio):.2f})",
+                                     sig + "/float-bound"))
+        case.tags = case.tags + ("float-bound ratio " + fl_bucket(worst),)
+        case.flratio, case.flchecked = worst, nchk
         # the model's matrices / rates at the implementation's thresholds
         if common.pints(o["mcm"]) != ocm:
             iss.append(Issue("DISAGREE", "cm", f"{desc}: scores.cm(thresholds) cells {ocm} model {common.pints(o['mcm'])}", sig + "/cm"))
